@@ -317,6 +317,17 @@ func c11Gen(t *rapid.T) c11Case {
 	return c
 }
 
+// table names in creation order: several are proper prefixes of a name created
+// EARLIER (and of the catalog tables' names)
+var c11Names = []string{"t10", "t1", "orders_archive", "orders", "sys", "abc", "ab", "t", "s", "order", "t100"}
+
+func c11TableName(i int) string {
+	if i < len(c11Names) {
+		return c11Names[i]
+	}
+	return fmt.Sprintf("u%d", i)
+}
+
 func c11Payload(n int) string {
 	b := make([]byte, n)
 	for i := range b {
@@ -359,8 +370,8 @@ func c11Run(c c11Case, st *vlib.Stats) string {
 		return f()
 	}
 	for i, op := range c.Ops {
-		where := fmt.Sprintf("op %d (%s t%d)", i, op.Op, op.Table)
-		name := fmt.Sprintf("t%d", op.Table)
+		where := fmt.Sprintf("op %d (%s %s)", i, op.Op, c11TableName(op.Table))
+		name := c11TableName(op.Table)
 		switch op.Op {
 		case "create":
 			if err := guard(func() error { return rs.CreateTable(c11Rel, name) }); err != nil {
